@@ -1426,6 +1426,19 @@ func TestVerifC03(t *testing.T) {
 	for i := 0; i < nRace; i++ {
 		c03History(raceEnvs[i%2 == 0], rec, "race", "race_random", c03RandomHistory(rnd, false, false, true))
 	}
+	// (vi) extended streams (verif_c03_x_test.go): user-context writes, grant sequences / histories, the access API
+	// (the bucket pool bounds the number of databases open at once: the ones used so far are closed first)
+	for k, e := range envs {
+		if e != nil {
+			e.close()
+		}
+		delete(envs, k)
+	}
+	for k, e := range raceEnvs {
+		e.close()
+		delete(raceEnvs, k)
+	}
+	c03xStreams(t, rec, rnd)
 	if b, err := json.Marshal(map[string]int{"race": nRace + 2*len(raceCorpus), "random": nRand, "adversarial": nRand / 2, "exhaustive": nEx, "purge": nPurge + len(purgeCorpus)}); err == nil {
 		rec.Extra("histories", string(b))
 	}
